@@ -132,6 +132,29 @@ Theorem c05_tokio_sleep_exact : forall tid pre d post,
             (mk_tag tid (N.of_nat (length pre) + 2) 0, c + d) :: l2.
 Proof. exact tokio_sleep_exact. Qed.
 
+(* Timer exactness, composed (core + TokioClock): tick of whole milliseconds,
+   a scripted host whose main future contains `.. obs; sleep(d); obs ..` with d
+   whole milliseconds; the two reads may lie any number of steps apart, with
+   registrations, runs, crashes and bounces of OTHER hosts in between, no failed
+   step, no bounce of this host.  The second read sees elapsed(), sim_elapsed()
+   and since_epoch() exactly d later: the timer fired at exactly its virtual
+   instant.  (small_script: fewer than 1000 ops per task, so that the tags that
+   identify the reads are unambiguous.) *)
+Theorem c05_timer_exact_scripted :
+  forall s1 ord1 s1' res1 log1 o1 es ord2 s2' res2 log2 o2 h r1 scs pre d post,
+  lockstep s1 -> wtick s1 = wtick_of (tick s1) -> tick s1 mod ms = 0 -> 0 < tick s1 ->
+  step s1 ord1 = (s1', res1, log1) -> In o1 log1 -> o_host o1 = h ->
+  nth_error (rts s1) h = Some r1 ->
+  (forall inc, sw r1 inc = sw_of_script (tick s1) (scs inc)) ->
+  small_script (scs (o_inc o1)) ->
+  s_main (scs (o_inc o1)) = pre ++ Obs :: Sleep d :: Obs :: post -> d mod ms = 0 ->
+  o_tag o1 = mk_tag 0 (N.of_nat (length pre)) 0 ->
+  o_tag o2 = mk_tag 0 (N.of_nat (length pre) + 2) 0 ->
+  no_failed s1 (Step ord1 :: es) -> no_bounce_of h es ->
+  step (exec s1' es) ord2 = (s2', res2, log2) -> In o2 log2 -> o_host o2 = h ->
+  o_elapsed o2 = o_elapsed o1 + d /\ o_sim o2 = o_sim o1 + d /\ o_epoch o2 = o_epoch o1 + d.
+Proof. exact c05_timer_exact_scripted_lemma. Qed.
+
 (* ---- witnesses ------------------------------------------------------------------ *)
 
 Definition all_logs (s : state) (es : list ev) : list read_obs := flat_map obs_log (exec_obs s es).
@@ -209,6 +232,7 @@ Print Assumptions c05_timer_exact.
 Print Assumptions c05_lockstep_reached.
 Print Assumptions c05_wtick_whole.
 Print Assumptions c05_tokio_sleep_exact.
+Print Assumptions c05_timer_exact_scripted.
 Print Assumptions c05_timer_exact_refuted.
 Print Assumptions c05_failed_step_refuted.
 Print Assumptions c05_nonvacuous.
